@@ -300,8 +300,8 @@ def exhaustive_else(dec, st, stored_consts):
                         if have <= chain_consts:
                             return True, f"{var} in {sorted(chain_consts)}"
                         return False, f"dispatch over {sorted(chain_consts)} does not cover stored constants {sorted(have)}"
-                return False, f"cannot find the source of {var}"
-    return False, "not in the else of a constant dispatch"
+                raise AnalysisError("R18.2", dec.where(st), f"cannot find the source of the dispatch variable `{var}`")
+    raise AnalysisError("R18.2", dec.where(st), "`assert False` is not in the else of a recognised dispatch over constants: whether it can be reached is not decided")
 
 
 EFFECT_METHODS = {"append", "extend", "add", "write", "writelines", "write_gfa", "write_graph", "update", "insert", "remove", "close", "makedirs"}
@@ -338,6 +338,11 @@ def r18_3(ctx, m):
     for s, eff in inside:
         if eff.startswith("registration"):
             regs.add(norm(s.value.func.value))
+    # lists derived from a registry after the loop (`out_gfa = [g for g, _ in written]`) are registries too
+    for _ in range(2):
+        for st in walk_stmts(run.node.body):
+            if isinstance(st, ast.Assign) and len(st.targets) == 1 and isinstance(st.targets[0], ast.Name) and isinstance(st.value, (ast.ListComp, ast.GeneratorExp)) and len(st.value.generators) == 1 and norm(st.value.generators[0].iter) in regs and not st.value.generators[0].ifs:
+                regs.add(st.targets[0].id)
     tail_opens = []
     for n in walk_own(run.node):
         if isinstance(n, ast.For) and norm(n.iter) in regs:
@@ -347,8 +352,11 @@ def r18_3(ctx, m):
 
     ld = local_defs(run.node)
     late = []
+    in_loop_ids = {id(x) for x in ast.walk(m.loop)}
+    if not any(x is m.loop for x in ast.walk(run.node)):
+        raise AnalysisError("R18.3", run.where(), "the chromosome loop is not part of the entry function as analysed here (it runs inside a generator): what is written after it is not decided")
     for n in walk_own(run.node):
-        if isinstance(n, ast.Call) and isinstance(n.func, ast.Attribute) and n.func.attr in ("write_gfa", "write_graph") and getattr(n, "lineno", 0) > m.loop.end_lineno:
+        if isinstance(n, ast.Call) and isinstance(n.func, ast.Attribute) and n.func.attr in ("write_gfa", "write_graph") and id(n) not in in_loop_ids and run.before(m.loop, n):
             late.append(n)
     for c in late:
         ba = ctx.repo.bound_args(run, c) or {}
@@ -364,6 +372,8 @@ def r18_3(ctx, m):
                         nxt += [d for d in ld.get(nm, []) if d is not None]
             frontier = nxt
         fed = bool(names & {r.split(".")[0].split("[")[0] for r in regs})
+        if not fed and not any(".nodes" in norm(d) or "graph" in nm for nm in names for d in ([x for x in ld.get(nm, []) if x is not None] or [ast.Name(id=nm, ctx=ast.Load())])):
+            raise AnalysisError("R18.3", run.where(c), f"cannot trace the node set `{norm(src)[:50] if src is not None else None}` of a graph written after the chromosome loop to a registry of the success branch or to the whole graph")
         ctx.check(fed, "R18.3", run.where(c), "a graph written after the chromosome loop contains only what the success branch registered (not nodes picked from the whole graph, e.g. by the presence of a BO tag that a skipped component may carry from the input)", key_of(run, f"late-write-source:{norm(src)[:60] if src is not None else None}"), source=norm(src) if src is not None else None)
     ctx.check(len(regs) >= 1 and (len(tail_opens) >= 1 or bool(late)), "R18.3", run.where(), "the complete-file concatenation iterates only the registries filled in the success branch", key_of(run, "concat-over-registries"), registries=sorted(regs), loops=len(tail_opens))
 
